@@ -1789,6 +1789,8 @@ class Interp(object):
         sym = self.OPS.get(op)
         if isinstance(a, SArr) or isinstance(b, SArr):
             from . import pymodels
+            if op in (ast.BitAnd, ast.BitOr):
+                return pymodels.array_bitop(self, "&" if op is ast.BitAnd else "|", a, b)
             return pymodels.array_binop(self, sym, a, b, inplace)
         if isinstance(a, SList) or isinstance(b, SList):
             if sym == "+" and isinstance(a, SList) and isinstance(b, SList):
